@@ -179,6 +179,12 @@ def main(tier: str, seed: int) -> int:
     chk.cov["interleavings_with_foreign_build_before_A_steps"] = sum(1 for b in behs if interesting(b) > 0)
     common.boot()
     dm = scenarios.shipped("data_manipulation.yaml")
+    # stand-alone components next to the collections (a custom space may name a single link): the two uplinks of the router
+    for ag in dm["agents"]:
+        comps = ((ag.get("observation_space") or {}).get("options") or {}).get("components")
+        if ag.get("type") == "proxy-agent" and isinstance(comps, list):
+            comps += [{"type": "link", "label": "UPLINK_1", "options": {"link_reference": "router_1:eth-1<->switch_1:eth-8"}},
+                      {"type": "link", "label": "UPLINK_2", "options": {"link_reference": "router_1:eth-2<->switch_2:eth-8"}}]
     scen = [
         ("data_manipulation", dm),
         ("firewalled_dmz+all_actions", generated_cfg(scenarios.firewalled(dmz=True), rng, 2)),
